@@ -18,6 +18,7 @@ import (
 	"fmt"
 	"math/big"
 	"os"
+	"strconv"
 	"strings"
 
 	"github.com/google/wuffs/lang/check"
@@ -166,6 +167,17 @@ func (e *exporter) add(n *a.Node, share bool) int {
 	case a.KIterate:
 		it := n.AsIterate()
 		id0, id1, id2 = it.Advance(), it.Label(), it.Length()
+		// the three counts of an iterate round are literal tokens (1 ..= 256); their numeric values are written
+		// into the otherwise unused claim fields of the node: cv = length, lo = advance, hi = unroll
+		if v, err := strconv.Atoi(it.Length().Str(e.tm)); err == nil {
+			j.Hcv, j.Cv = 1, int64(v)
+		}
+		if v, err := strconv.Atoi(it.Advance().Str(e.tm)); err == nil {
+			j.Hlo, j.Lo = 1, int64(v)
+		}
+		if v, err := strconv.Atoi(it.Unroll().Str(e.tm)); err == nil {
+			j.Hhi, j.Hi = 1, int64(v)
+		}
 	case a.KJump:
 		id0, id1 = n.AsJump().Keyword(), n.AsJump().Label()
 	case a.KRet:
